@@ -27,6 +27,8 @@ C17Clauses(e) ==
       <<"no-name-of-a-living-person-in-any-file", (Completed(r) /\ Hidden(c.opts)) => NoLivingName(c.doc, r)>>,
       <<"no-name-of-a-living-person-after-publishing-with-show",
           (Hidden(c.opts) /\ HasRun(e, "aftershow")) => (Completed(Run(e, "aftershow")) /\ NoLivingName(c.doc, Run(e, "aftershow")))>>,
+      <<"no-name-of-a-living-person-when-a-complete-site-is-made-from-the-same-document",
+          (Hidden(c.opts) /\ HasRun(e, "bothfirst")) => (Completed(Run(e, "bothfirst")) /\ NoLivingName(c.doc, Run(e, "bothfirst")))>>,
       <<"no-name-of-a-living-person-after-an-edit-made-them-living",
           (Hidden(c.opts) /\ HasRun(e, "afteredit")) => (Completed(Run(e, "afteredit")) /\ NoLivingName(c.doc, Run(e, "afteredit")))>>,
       <<"hide-site-does-not-depend-on-living-data",
@@ -41,7 +43,7 @@ C19Site(e) ==
       <<"every-link-resolves", Completed(r) => LinksClosed(r)>>,
       <<"same-files-again", \A k \in Others(e, {"again"}) : Completed(r) => SameAsRef(e, k)>>,
       <<"same-files-for-every-number-of-jobs", \A k \in Others(e, JobVariants) : Completed(r) => SameAsRef(e, k)>>,
-      <<"same-files-after-an-earlier-publish", \A k \in Others(e, {"prior", "aftershow", "afteredit"}) : Completed(r) => SameAsRef(e, k)>>,
+      <<"same-files-after-an-earlier-publish", \A k \in Others(e, {"prior", "aftershow", "afteredit", "bothfirst"}) : Completed(r) => SameAsRef(e, k)>>,
       <<"same-files-under-the-race-detector", \A k \in Others(e, {"race"}) : Completed(r) => SameAsRef(e, k)>>,
       <<"no-data-race", \A k \in Others(e, {"race"}) : e.runs[k].races = <<>>>>  >>
 
